@@ -243,6 +243,21 @@ func c04Enum(ctx *ev.Ctx, fn func(*Config, C04Case)) string {
 				emit(c, a, b)
 			}
 		}
+		// the code of a Grouped AVP under a vendor id the dictionary does not know (a leaf whose
+		// payload happens to look like an AVP), directly after / before / inside the real group
+		for gi := range c.A.Groups {
+			g := c.A.Groups[gi]
+			if g.Vendor != 0 {
+				continue
+			}
+			smuggled := refcodec.EncodeAVP(refcodec.Node{Code: c.A.Undef[0], Payload: []byte{1, 2, 3, 4}})
+			look := WRec{Code: g.Code, Flags: 0xC0, Vendor: 4242, Decl: -1, Payload: smuggled, Tag: fmt.Sprintf("lookalike/%d/v4242", g.Code)}
+			emit(c, c.wgroup(gi, nil), look)
+			emit(c, c.wgroup(gi, []WRec{tail}), look, tail)
+			emit(c, look, c.wgroup(gi, []WRec{tail}))
+			emit(c, c.wgroup(gi, []WRec{look, tail}))
+			emit(c, look)
+		}
 		// wide groups: a grouped member that sits behind many other members (at top level and one
 		// level down) - nesting depth stays 2 or 3, only the member count grows
 		if len(c.A.Groups) > 1 && len(full) > 0 {
@@ -402,6 +417,9 @@ func cmpFramed(c *Config, got []*diam.AVP, want []refcodec.Rec, path string) str
 			}
 			continue
 		}
+		if gg, isGroup := g.Data.(*diam.GroupedAVP); isGroup {
+			return fmt.Sprintf("%s: code %d vendor %d is not a Grouped AVP in the dictionary, but its %d payload bytes were read as %d AVP(s)", p, w.Code, w.Vendor, len(w.Payload), len(gg.AVP))
+		}
 		// payload bytes, wherever the typed value retains them (strictly valid payloads only)
 		kn, payload, ok := atoms.Canon(g.Data)
 		if !ok {
@@ -476,7 +494,7 @@ func runC04(ctx *ev.Ctx) {
 			ctx.Report("", generalise(what), what+" | case: "+mc.Desc(), mc)
 		}
 	})
-	ctx.Rule += " Wide containers: a grouped AVP behind 0..257 sibling members (counts around 16, 32, 64 and 256), at top level, inside a group and two levels down. Every top-level record of every accepted body is also decoded with the exported AVP.DecodeFromBytes into ONE AVP value that held a vendor-specific AVP first and then every earlier record, and compared with a fresh decode of the same bytes."
+	ctx.Rule += " The code of every vendor-less Grouped AVP also under a foreign vendor id (a leaf), directly after / before / inside the real group. Wide containers: a grouped AVP behind 0..257 sibling members (counts around 16, 32, 64 and 256), at top level, inside a group and two levels down. Every top-level record of every accepted body is also decoded with the exported AVP.DecodeFromBytes into ONE AVP value that held a vendor-specific AVP first and then every earlier record, and compared with a fresh decode of the same bytes."
 	ctx.Assume = []string{"reference framer (refcodec.Frame) walks by pad4(declared length) only", "a by-Length decoder accepts a sequence iff it accepts each record on its own (used to tell a legitimate value rejection from a framing error)"}
 }
 
